@@ -17,7 +17,8 @@ def _strip_port(host: str) -> str | None:
         name, sep, rest = host.partition("]")
 
         if not sep:
-            return host
+            # The bracket is never closed, this is not an address literal.
+            return None
 
         name = f"{name}]"
     else:
